@@ -63,6 +63,12 @@ var xpathExprs = []exprSpec{
 	{"../x:n DIV 2 = 1", false, []string{"x"}},
 	{"x:n Mod 2 = 1", false, []string{"x"}},
 	{"x:a = 1 and x:b = 2 or x:n div 2 = 1", true, []string{"x"}},
+	// an abbreviated step takes no predicate
+	{"..[x:kind = 'x']", false, []string{"x"}},
+	{".[. = 'x']", false, nil},
+	{"../..[x:item]/x:item[x:name = 'y']", false, []string{"x"}},
+	{"count(../../x:item/.[x:kind = 'x']) > 0", false, []string{"x"}},
+	{"../x:item[x:kind = 'x']/..", true, []string{"x"}},
 }
 
 var pathExprs = []exprSpec{
